@@ -179,6 +179,25 @@ def generate(repo: Path, membrane_mod, innate_mod) -> str:
     mb = _guard(lambda: [(s.pattern, natval(s.level), bool(s.is_regex)) for s in M.Membrane.INNATE_SIGNATURES])
     ib = _guard(lambda: [(p.pattern, natval(p.severity), bool(p.is_regex)) for p in I.InnateImmunity.DEFAULT_PATTERNS])
 
+    def folding():
+        """how substring signatures compare letters, EVALUATED on both `matches` methods with discriminating pairs:
+        full case folding per code point (context free: capital sigma inside / at the end of a word, sharp s against
+        SS) -> "casefold"; plain lower-casing -> "lower"; anything else -> unknown"""
+        kinds = set()
+        for mk in (lambda p: M.ThreatSignature(p, M.ThreatLevel.CRITICAL, "probe"),
+                   lambda p: I.TLRPattern(p, I.PAMPCategory.JAILBREAK_PATTERN, "probe")):
+            def hit(p, c):
+                return bool(mk(p).matches(c))
+            if not (hit("abc", "xABCx") and hit("ABC", "xabcx") and not hit("abc", "abd") and hit("", "x")):
+                raise ValueError("not a case-insensitive substring test")
+            full = hit("HACK\u03a3", "HACK\u03a3now") and hit("HACK\u03a3", "hack\u03c2") and hit("stra\u00dfe", "STRASSE") \
+                and hit("STRASSE", "stra\u00dfe") and hit("\u0130x", "a\u0130xb")
+            kinds.add("casefold" if full else "lower")
+        if len(kinds) != 1:
+            raise ValueError("the two gates fold differently")
+        return kinds.pop()
+    fold = _guard(folding)
+
     def pair(p):
         return "none" if p is None or None in p else f"some ({p[0]}, {p[1]})"
 
@@ -221,6 +240,9 @@ def generate(repo: Path, membrane_mod, innate_mod) -> str:
     out.append("namespace Operon.Gen.Gates\n")
     out.append(f"/-- seconds in `cutoff = now - <n>` of `Membrane._check_rate_limit` -/\ndef membraneWindowS : Option Nat := {_opt(window)}")
     out.append(f"def threatLevels : Option (List (String × Nat)) := {names(levels)}")
+    out.append("/-- how `ThreatSignature.matches` / `TLRPattern.matches` compare letters for substring signatures, evaluated\n"
+               "    on discriminating pairs: \"casefold\" = full case folding code point by code point (context free) -/\n"
+               "def substringFolding : Option String := " + ("none" if fold is None else f'some "{fold}"'))
     out.append(f"def membraneDefaultThreshold : Option Nat := {_opt(thr)}")
     out.append(f"def membraneCritical : Option Nat := {_opt(crit)}")
     out.append(f"def membraneRateDefaultNone : Option Bool := {_opt(None if rate_default_none is None else str(rate_default_none).lower())}")
